@@ -42,6 +42,9 @@ func cutPositions(r *Rng, n int, budget int) []int {
 	return cuts
 }
 
+// c07Light: only the real decoders (typed, inferred) on a small set of cuts — for encodings of 64 KiB and more
+var c07Light bool
+
 func c07Block(c *Ctx, r *Rng, cols []blockCol, rows, rev int) {
 	R := c.R
 	cs := caseMap(cols, rows, rev)
@@ -67,7 +70,23 @@ func c07Block(c *Ctx, r *Rng, cols []blockCol, rows, rev int) {
 		budget = 4096
 	}
 	cuts := cutPositions(r, len(enc), budget)
-	R.Case(fmt.Sprintf("blk|%v|%d|%d|%s", cs["types"], rows, rev, hx(enc)), rows > 0)
+	if c07Light {
+		// large encodings: the head, a coarse walk over the last 140 000 bytes, the last bytes
+		cuts = nil
+		for k := 0; k < 40 && k < len(enc); k++ {
+			cuts = append(cuts, k)
+		}
+		for k := max(40, len(enc)-140000); k < len(enc); k += 4099 {
+			cuts = append(cuts, k)
+		}
+		for k := max(40, len(enc)-12); k < len(enc); k++ {
+			cuts = append(cuts, k)
+		}
+		cs["encoded"] = truncHex(enc[:min(len(enc), 64)])
+		R.Case(fmt.Sprintf("blk-large|%v|%d|%d", cs["types"], rows, rev), rows > 0)
+	} else {
+		R.Case(fmt.Sprintf("blk|%v|%d|%d|%s", cs["types"], rows, rev, hx(enc)), rows > 0)
+	}
 	R.CountN("prefixes:block-typed", len(cuts))
 	for _, k := range cuts {
 		p := enc[:k]
@@ -117,6 +136,9 @@ func c07Block(c *Ctx, r *Rng, cols []blockCol, rows, rev int) {
 	}
 	if allInferable {
 		R.CountN("prefixes:block-auto", len(cuts))
+	}
+	if c07Light {
+		return
 	}
 	// the model on a sample of prefixes of the single-column body
 	if c.D != nil && rows > 0 && len(cols) == 1 && !unorderedMaps(cols[0].t, false) {
@@ -314,6 +336,29 @@ func runC07(c *Ctx) {
 			if err == nil {
 				c07Block(c, r, cols, rows, 54460)
 			}
+		}
+	}
+	// columns whose size is a round number of rows / bytes (64 Ki rows, 128 KiB): a decoder that works through a column in
+	// pieces must still need every byte
+	for _, spec := range []struct {
+		ty   string
+		rows []int
+	}{{"Nothing", []int{65535, 65536, 65537, 131072}}, {"Nullable(Nothing)", []int{65536}}, {"UInt8", []int{65536, 131072}}, {"Bool", []int{65536}},
+		{"Int16", []int{65536}}, {"UUID", []int{8192, 65536}}, {"String", []int{65536}}, {"Nullable(UInt8)", []int{65536}}} {
+		t, err := parseCH(spec.ty)
+		if err != nil {
+			continue
+		}
+		for _, rows := range spec.rows {
+			cols, err := buildCols(r, 1, rows, genOpts{}, func() *TNode { return t })
+			if err != nil {
+				R.Count("unconstructible")
+				continue
+			}
+			R.Count("shape:round-row-count")
+			c07Light = true
+			c07Block(c, r, cols, rows, 54460)
+			c07Light = false
 		}
 	}
 	// String as the last column with long values at the end (the decoder's buffer has to grow while reading them)
